@@ -561,6 +561,9 @@ func envFor(t *Tape, decls []*Decl, mask func(d *Decl) bool) EnvState {
 		if d.Kind.IsList() && t.Draw(2) == 1 {
 			val += "," + t.Pick(validPool[ek])
 		}
+		if d.Kind == KStrings && t.Draw(6) == 0 {
+			val = []string{",", " ", " , ", ",,", "\t"}[t.Draw(5)] // lists of empty strings are valid lists of strings
+		}
 		env.Set(d.EnvVars[0], val)
 	}
 	return env
